@@ -98,6 +98,23 @@ func runC14(c C14Case) string {
 		if scaled(gc, int64(ge), m).Cmp(scaled(wantCoef, wantExp, m)) != 0 {
 			return fmt.Sprintf("%s: got %vd%d, want value %vd%d", c.Op, gc, ge, wantCoef, wantExp)
 		}
+		// the result is a decimal like any other: its sign and its text are those
+		// of the value CoEx reports (a result that carries state over from an
+		// operand -- a negative-zero flag, say -- prints as something else)
+		if got.Sign() != wantCoef.Sign() {
+			return fmt.Sprintf("%s: result %vd%d has Sign() = %d", c.Op, gc, ge, got.Sign())
+		}
+		s := got.String()
+		if !ionDecimalLiteral.MatchString(s) {
+			return fmt.Sprintf("%s: result %vd%d prints as %q, not an Ion decimal literal", c.Op, gc, ge, s)
+		}
+		p, err := ion.ParseDecimal(s)
+		if err != nil {
+			return fmt.Sprintf("%s: result %vd%d prints as %q: ParseDecimal: %v", c.Op, gc, ge, s, err)
+		}
+		if pc, pe := p.CoEx(); pc.Cmp(gc) != 0 || pe != ge {
+			return fmt.Sprintf("%s: result %vd%d prints as %q, which parses as %vd%d", c.Op, gc, ge, s, pc, pe)
+		}
 		return ""
 	}
 	var msg string
